@@ -11,6 +11,9 @@ if "A" in strata:
     from contracts import engines_tasks; tasks += engines_tasks.all_tasks()
 if "B" in strata:
     from contracts import blocks_tasks; tasks += blocks_tasks.all_tasks()
+if strata not in ("A", "B", "AB"):
+    mod = __import__("contracts." + strata, fromlist=["all_tasks"])
+    tasks = mod.all_tasks()
 ts = [t for t in tasks if name in t.name]
 t0 = time.time()
 ctxs, und, orc = vc.explore(ts[0], make_interp, "/verif/out/prof")
